@@ -251,7 +251,7 @@ def run(ctx):
     res.rule("C02-R1", "guarded header view: a record viewed over bytes of a (pointer, size) parameter is dereferenced only where size >= offset + "
                         "sizeof(record) holds — by a local guard, or by a precondition that every call site discharges (validator result on the same "
                         "pointer and size, a size comparison, or the caller's own discharged precondition)")
-    res.rule("C02-R1p", "(pointer, size) pairs handed to a callee stay inside the caller's pair: pointer offset k and size n + c satisfy k + c <= 0 and n >= -c")
+    res.rule("C02-R1p", "(pointer, size) pairs handed to a callee stay inside the caller's pair: pointer offset k and size n + c satisfy k >= 0, k + c <= 0 and n >= -c")
     res.rule("C02-R2", "payload-class invariant: every typed payload object created in decode-reachable code holds at least sizeof(Header) bytes — constant "
                         "default size, construction guarded by the class validator, or a self-validating constructor (marks the object invalid unless "
                         "the size and inner length fit) whose result is tested with isValid() before it escapes")
@@ -939,7 +939,7 @@ def rule_pairs(eng, ctx):
                         lbn = max(lbn, outp_lb(outp, pa, fs))
                         if form is not None and form.get("n") == 1 and set(form) <= {"n", 1}:
                             cc = form.get(1, 0)
-                            ok = pr.off + cc <= 0 and lbn + cc >= 0
+                            ok = pr.off >= 0 and pr.off + cc <= 0 and lbn + cc >= 0  # (a pointer in front of the caller's buffer is outside it too)
                             why = "sub-pair (%s + %d, %s %+d) of the caller's pair, %s >= %d" % (pr.base.split(":")[-1], pr.off, cs.split(":")[-1], cc, cs.split(":")[-1], lbn)
                         else:
                             # bounded length L <= n - k
